@@ -92,6 +92,17 @@ func GenFunc(prog *Prog, fn *ssa.Function, fc *FuncContract) *VC {
 		enc.notes["global invariant "+u+" assumed at entry (established by the package initialiser's contract, preserved per the global-frame obligation)"] = true
 	}
 	vc.runBody(fr, st0, "true")
+	for _, lc := range fc.Loops {
+		for _, mc := range lc.MustCalls {
+			if mc.Hits == 0 {
+				vc.errorf("mustcall %s: no call of %s inside loop %d of %s (stale clause)", mc.Callee, mc.Callee, lc.Ordinal, fn.Name())
+			}
+			if mc.Applied == 0 {
+				vc.errorf("mustcall %s in loop %d of %s: the condition could be evaluated at no back edge (stale clause)", mc.Callee, lc.Ordinal, fn.Name())
+			}
+			mc.Hits, mc.Applied, mc.Skipped = 0, 0, 0
+		}
+	}
 	for _, cs := range fc.CallSites {
 		if cs.Hits == 0 {
 			vc.errorf("callsite %s: no call of %s in %s (stale clause)", cs.Callee, cs.Callee, fn.Name())
